@@ -44,7 +44,7 @@ pub fn visit_slice(table: &Table, ty: &TypeDef, slice: &Slice, k: usize, f: &mut
             let leaves = variable_leaves(table, ty);
             let path = &leaves[*i];
             let mut sizes: Vec<usize> = (0..=300).collect();
-            sizes.extend([998, 999, 1000, 1068, 4096, 65000]);
+            sizes.extend([511, 512, 513, 767, 768, 998, 999, 1000, 1068, 1279, 1280, 4095, 4096, 4097, 32767, 32768, 65000, 65279, 65280]);
             for n in sizes {
                 f(&sized(table, ty, path, n), "sizing");
             }
